@@ -629,6 +629,11 @@ def a7_pairing(ctx) -> None:
             elif ok is False:
                 ctx.violation("A7", c, f"`{norm(ce)}` and `{norm(le)}` do not belong to the same (class, label) pair ({kc} vs {kl}): "
                               "work done on the class is recorded under another class's label")
+            elif (kc is None) != (kl is None) and (kc or kl)[0] in ("idx", "zip"):
+                known, which, other = (kl, "label", norm(ce)) if kc is None else (kc, "class", norm(le))
+                ctx.violation("A7", c, f"the {which} handed to {name} is position {known[1] if known[0] == 'idx' else '?'} of a rule's children / labels, but its partner `{other}` is "
+                              f"not taken from the same position (`{norm(D.expanded(f, ce if kc is None else le))[:90]}`): whenever the two differ, work on one class is "
+                              "recorded under another class's label")
             else:
                 unresolved.append(f"{fi.qualname}: {norm(c)[:70]}")
     ctx.extra["a7_unresolved_pairs"] = unresolved
@@ -760,3 +765,91 @@ def a4b_clean_labels_call_site(ctx) -> None:
                     ctx.note(f"{fi.qualname}: _clean_labels is applied under {gs}")
     if n < 1:
         ctx.floor("A4", 99)
+
+
+# ------------------------------------------------------------------------ A9 .. A12
+def a9_factory_output_as_is(ctx) -> None:
+    """What a strategy factory hands out is used as it is: a ready rule is yielded itself (its
+    parent may be another class than the one being expanded), a strategy is applied to the
+    class being expanded, and the loop variable is not re-bound on the way."""
+    P = ctx.P
+    m = P.need_method(SEARCHER, "_rules_from_strategy", own=True)
+    f = m.node
+    ctx.analysed(m)
+    cc = [p for p in m.params() if p not in ("self", "cls")][0]
+    loops = [l for l in walk_local(f) if isinstance(l, ast.For) and isinstance(l.target, ast.Name) and isinstance(l.iter, ast.Call)
+             and any((f"isinstance({norm(l.iter.func)}, StrategyFactory)", True) == g for g in C.guard_texts(f, l))]
+    if not loops:
+        raise AnalysisError("A9: _rules_from_strategy no longer iterates over what a StrategyFactory yields")
+    lp = loops[0]
+    x = lp.target.id
+    rebinds = [n for n in walk_local(lp) if isinstance(n, ast.Name) and n.id == x and isinstance(n.ctx, ast.Store) and n is not lp.target]
+    for n in rebinds:
+        ctx.violation("A9", n, f"`{x}` (what the factory yielded) is re-bound inside the loop: the tests on its kind that follow no longer speak about what the factory "
+                      "handed out (a ready rule turned into its strategy is re-applied to the class being expanded, whatever the rule's own parent was)")
+    ys = [y for y in C.yields_of(lp) if isinstance(y, ast.Yield) and y.value is not None]
+    as_is = [y for y in ys if norm(y.value) == x and (f"isinstance({x}, AbstractRule)", True) in C.guard_texts(f, y)]
+    applied = [y for y in ys if norm(y.value) == f"{x}({cc})" and (f"isinstance({x}, AbstractStrategy)", True) in C.guard_texts(f, y)]
+    if as_is and applied and len(as_is) + len(applied) == len(ys) and not rebinds:
+        ctx.ok("A9", f"a ready rule from a factory is yielded itself, a strategy from a factory is applied to `{cc}`")
+    elif not rebinds:
+        other = [y for y in ys if y not in as_is and y not in applied]
+        ctx.violation("A9", other[0] if other else lp, f"inside the loop over a factory's output every yield must be `{x}` under isinstance({x}, AbstractRule) or `{x}({cc})` under "
+                      f"isinstance({x}, AbstractStrategy)")
+
+
+def a10_call_computes_children(ctx) -> None:
+    """Every strategy kind builds its rule from decomposition_function(comb_class) when no
+    children are given and refuses (StrategyDoesNotApply) when that is None -- the hook user
+    strategies override.  Sibling agreement over the __call__ methods of the strategy bases."""
+    P = ctx.P
+    base = P.need_class("AbstractStrategy")
+    n = 0
+    for cls in P.subclasses(base, strict=False):
+        m = cls.methods.get("__call__")
+        if m is None or any(d.endswith('abstractmethod') for d in m.decorators):
+            continue
+        f = m.node
+        ps = [p for p in m.params() if p != "self"]
+        if len(ps) < 2:
+            continue
+        n += 1
+        ctx.analysed(m)
+        cc, ch = ps[0], ps[1]
+        asg = [a for a in walk_local(f) if isinstance(a, (ast.Assign, ast.AnnAssign)) and any(isinstance(t, ast.Name) and t.id == ch for t in (a.targets if isinstance(a, ast.Assign) else [a.target]))]
+        good = [a for a in asg if a.value is not None and norm(a.value) == f"self.decomposition_function({cc})" and (f"{ch} is None", True) in C.guard_texts(f, a)]
+        bad = [a for a in asg if a not in good]
+        rs = [r for r in C.raises_of(f) if r.exc is not None and "StrategyDoesNotApply" in norm(r.exc)]
+        refuses = any((f"{ch} is None", True) in C.guard_texts(f, r) and good and C.dominates(f, good[0], r) for r in rs)
+        if good and not bad and refuses:
+            ctx.ok("A10", f"{m.qualname}: children default to decomposition_function({cc}); None there means the strategy does not apply")
+        else:
+            ctx.violation("A10", (bad or asg or [f])[0], f"{m.qualname} must take missing children from self.decomposition_function({cc}) and raise StrategyDoesNotApply when that is "
+                          "None: the rule otherwise records other children than the strategy computes (a verification strategy with dependencies loses them)",
+                          construct=f"{m.qualname} children default")
+    if n < 2:
+        ctx.floor("A10", 99)
+
+
+def a12_guard_reads_the_parameter(ctx) -> None:
+    """RuleDBForest._add_empty_rule re-binds `rule` to the empty rules it adds; the question
+    `possibly_empty` is about the rule that was passed in and is asked before that happens."""
+    P = ctx.P
+    m = P.need_method("RuleDBForest", "_add_empty_rule", own=True)
+    f = m.node
+    ctx.analysed(m)
+    ps = m.params()
+    r = ps[2] if len(ps) > 2 else "rule"
+    reads = [a for a in walk_local(f) if isinstance(a, ast.Attribute) and a.attr == "possibly_empty" and isinstance(a.value, ast.Name) and a.value.id == r]
+    if not reads:
+        ctx.violation("A12", f, "_add_empty_rule no longer asks whether the rule declared its children possibly empty", construct="RuleDBForest._add_empty_rule possibly_empty")
+        return
+    stores = [n for n in walk_local(f) if isinstance(n, ast.Name) and n.id == r and isinstance(n.ctx, ast.Store)]
+    for a in reads:
+        loops = C.enclosing_loops(f, a)
+        stale = [s for s in stores if any(any(s is y for y in ast.walk(l)) for l in loops)]
+        if stale:
+            ctx.violation("A12", a, f"`{r}.possibly_empty` is read inside the loop that re-binds `{r}` to the empty rule it has just made: from the second empty child on the "
+                          "question is asked of that empty rule, and the remaining empty children get no rule")
+        else:
+            ctx.ok("A12", f"`{r}.possibly_empty` is asked of the rule passed in, before the loop re-binds the name")
